@@ -51,6 +51,9 @@ func main() {
 		}
 	}
 	r := hx.NewRand(ctx.Seed)
+	nTip := ctx.Scale(60, 1500)
+	tipRuleCheck(ctx, r.Fork(7000000), nTip)
+	ctx.Cov.Add("tiprule-trees", nTip)
 	nBushy, nLong := ctx.Scale(700, 8000), ctx.Scale(60, 600)
 	for i := 0; i < nBushy; i++ {
 		runOne(ctx, chainsim.GenBushy(r.Fork(uint64(i)), chainsim.GenOpts{Logs: i%2 == 0}), true)
